@@ -160,6 +160,11 @@ def runPre (st : St) : List Str → Except Err (St × List Rec)
 /-- `get_numbered_lines(content)` on `content.split("\n")` -/
 def numbered (lines : List Str) : Except Err (List Rec) := run St.init lines
 
+/-- an ordinary one-line statement (as `raw_line.strip()`): not empty, not a string opener, not a comment line, not a `"""` comment, no
+    continuation -/
+def plainStmt (s : Str) : Bool :=
+  !s.isEmpty && !isOpener s && !startsWith s ['#'] && !startsWith (firstPart s) q3 && !wantsMore (firstPart s)
+
 /-! ### from the file content -/
 
 /-- `content.split("\n")` -/
